@@ -89,6 +89,7 @@ type Specs struct {
 	Callers    []*CallersRule
 	Guards     []*GuardRule
 	ZeroGhosts []ZeroGhost
+	HasEffect  []string
 	Imports    map[string]string // alias -> path (global across spec files)
 }
 
@@ -288,6 +289,10 @@ func (sp *Specs) parseLines(lines []rawLine, pkgPath string) error {
 			sp.Sentinels = append(sp.Sentinels, sp.qualify(rest, pkgPath))
 		case "noeffect":
 			sp.NoEffect = append(sp.NoEffect, sp.qualifyPattern(rest))
+		case "haseffect":
+			// haseffect name: a member of a `noeffect pkg.*` family that does have an effect (it writes through an argument,
+			// runs a caller's closure, panics on some input): it is NOT covered by the wildcard
+			sp.HasEffect = append(sp.HasEffect, sp.qualifyPattern(rest))
 		case "axiom", "lemma":
 			// axiom name: expr   |  lemma[tags] name: expr
 			m := regexp.MustCompile(`^(?:\[([^\]]*)\]\s*)?(\w+)\s*:\s*(.*)$`).FindStringSubmatch(strings.TrimSpace(h[len(kw):]))
